@@ -259,45 +259,56 @@ Proof.
   rewrite orb_true_iff, andb_true_iff, negb_true_iff, !Z.eqb_eq. tauto.
 Qed.
 
-Lemma node_reserved_perturb k idx d i : node_reserved (perturb k idx d i) = node_reserved i.
+Lemma node_reserved_perturb k idx d i : k <> 6 -> node_reserved (perturb k idx d i) = node_reserved i.
 Proof.
-  unfold perturb. destruct (k =? 1); [reflexivity|]. destruct (k =? 2); [reflexivity|].
-  destruct (k =? 3); [reflexivity|]. destruct (k =? 4); reflexivity.
+  intros Hk. unfold perturb. destruct (k =? 1); [reflexivity|]. destruct (k =? 2); [reflexivity|].
+  destruct (k =? 3); [reflexivity|]. destruct (k =? 4); [reflexivity|]. destruct (k =? 5); [reflexivity|].
+  destruct (k =? 6) eqn:E; [apply Z.eqb_eq in E; contradiction|reflexivity].
 Qed.
-Lemma rt_ok_perturb k idx d i : rt_ok (perturb k idx d i) = rt_ok i.
-Proof. unfold rt_ok. rewrite node_reserved_perturb. reflexivity. Qed.
+Lemma rt_ok_perturb k idx d i : k <> 6 -> rt_ok (perturb k idx d i) = rt_ok i.
+Proof. intros Hk. unfold rt_ok. rewrite !reservation_spec_eq. rewrite node_reserved_perturb by exact Hk. reflexivity. Qed.
 
 (* the decision procedure run on the model's own observable, for every perturbation kind *)
-Lemma budget_code_model k idx d i : rt_ok i = true -> Forall (fun p => 0 <= p_use p) (b_pods i) ->
+Lemma budget_code_model k idx d i : rt_ok i = true -> rt_ok (perturb k idx d i) = true ->
+  Forall (fun p => 0 <= p_use p) (b_pods i) ->
   budget_code k idx d i [budget i; budget (perturb k idx d i)] = 0.
 Proof.
-  intros Hok Hnn. unfold budget_code.
+  intros Hok Hok' Hnn. unfold budget_code.
   assert (H1 : budget_holdsb i (budget i) = true)
     by (apply budget_holdsb_spec; apply budget_formula; exact Hok).
   assert (H2 : budget_holdsb (perturb k idx d i) (budget (perturb k idx d i)) = true).
-  { apply budget_holdsb_spec. apply budget_formula. rewrite rt_ok_perturb. exact Hok. }
+  { apply budget_holdsb_spec. apply budget_formula. exact Hok'. }
   rewrite H1, H2. cbn [negb].
   destruct ((1 <=? k) && (k <=? 3) && (0 <=? d)) eqn:E.
   - cbn [andb].
     apply andb_true_iff in E. destruct E as [E E3]. apply andb_true_iff in E. destruct E as [E1 E2].
     apply Z.leb_le in E1. apply Z.leb_le in E2. apply Z.leb_le in E3.
     assert (Hle : budget (perturb k idx d i) <= budget i).
-    { apply budget_antitone; [|apply perturb_grows; lia].
-      unfold rt_ok in Hok. apply andb_true_iff in Hok. apply Z.leb_le. exact (proj2 Hok). }
+    { apply budget_antitone; [exact Hok|exact Hok'|apply perturb_grows; lia]. }
     apply Z.leb_le in Hle. rewrite Hle. cbn [negb].
-    assert (E4 : (k =? 4) = false) by (apply Z.eqb_neq; lia). rewrite E4. reflexivity.
+    assert (E4 : (k =? 4) = false) by (apply Z.eqb_neq; lia). rewrite E4.
+    assert (E5 : (k =? 5) = false) by (apply Z.eqb_neq; lia). rewrite E5.
+    assert (E6 : (k =? 6) = false) by (apply Z.eqb_neq; lia). rewrite E6. reflexivity.
   - cbn [andb].
-    destruct (k =? 4) eqn:E4; [|reflexivity]. apply Z.eqb_eq in E4. subst k. cbn [andb].
-    destruct (0 <=? d) eqn:Ed; [|reflexivity]. apply Z.leb_le in Ed. cbn [andb].
-    destruct (nth_error (b_pods i) (Z.to_nat idx)) as [p|] eqn:En.
-    + destruct (pod_nonbe p) eqn:Enb; [|reflexivity]. cbn [andb].
-      assert (Hle : budget (perturb 4 idx d i) <= budget i + 1).
-      { apply budget_slack; try assumption. rewrite En. exact Enb. }
-      apply Z.leb_le in Hle. rewrite Hle. reflexivity.
-    + cbn [andb].
-      assert (Hle : budget (perturb 4 idx d i) <= budget i + 1).
-      { apply budget_slack; try assumption. rewrite En. exact I. }
-      apply Z.leb_le in Hle. rewrite Hle. reflexivity.
+    destruct (k =? 4) eqn:E4.
+    + apply Z.eqb_eq in E4. subst k. cbn [andb Z.eqb Pos.eqb].
+      destruct (0 <=? d) eqn:Ed; [|reflexivity]. apply Z.leb_le in Ed. cbn [andb].
+      destruct (nth_error (b_pods i) (Z.to_nat idx)) as [p|] eqn:En.
+      * destruct (pod_nonbe p) eqn:Enb; [|reflexivity]. cbn [andb].
+        assert (Hle : budget (perturb 4 idx d i) <= budget i + 1).
+        { apply budget_slack; try assumption. rewrite En. exact Enb. }
+        apply Z.leb_le in Hle. rewrite Hle. reflexivity.
+      * cbn [andb].
+        assert (Hle : budget (perturb 4 idx d i) <= budget i + 1).
+        { apply budget_slack; try assumption. rewrite En. exact I. }
+        apply Z.leb_le in Hle. rewrite Hle. reflexivity.
+    + cbn [andb]. destruct (k =? 5) eqn:E5.
+      * apply Z.eqb_eq in E5. subst k. rewrite budget_policy_irrelevant. rewrite Z.eqb_refl. reflexivity.
+      * cbn [andb]. destruct (k =? 6) eqn:E6; [|reflexivity]. apply Z.eqb_eq in E6. subst k.
+        destruct (0 <=? d) eqn:Ed; [|reflexivity]. apply Z.leb_le in Ed. cbn [andb].
+        assert (Hle : budget (perturb 6 idx d i) <= budget i).
+        { apply budget_antitone; [exact Hok|exact Hok'|apply perturb6_grows; exact Ed]. }
+        apply Z.leb_le in Hle. rewrite Hle. reflexivity.
 Qed.
 
 (* ---------------------------------------------------------------- the same without the float hypothesis *)
@@ -308,11 +319,10 @@ Proof. intros H. apply budget_formula. apply rt_ok_holds. exact H. Qed.
 Lemma sys_at_least_reserved_any i : node_reserved i < 2 ^ 50 -> node_reserved i - 1 <= sys_milli i.
 Proof. intros H. apply sys_at_least_reserved. apply rt_ok_holds. exact H. Qed.
 
-Lemma budget_antitone_any i i' : node_reserved i < 2 ^ 50 -> grows i i' -> budget i' <= budget i.
+Lemma budget_antitone_any i i' : node_reserved i' < 2 ^ 50 -> grows i i' -> budget i' <= budget i.
 Proof.
-  intros H. apply budget_antitone.
-  pose proof (rt_ok_holds i H) as Hok. unfold rt_ok in Hok.
-  apply andb_true_iff in Hok. apply Z.leb_le. exact (proj2 Hok).
+  intros H Hg. apply budget_antitone; [|apply rt_ok_holds; exact H|exact Hg].
+  apply rt_ok_holds. destruct Hg as [_ [Hr _]]. rewrite !reservation_spec_eq in Hr. lia.
 Qed.
 
 Lemma budget_slack_any idx d i : node_reserved i < 2 ^ 50 -> 0 <= d ->
@@ -322,9 +332,10 @@ Lemma budget_slack_any idx d i : node_reserved i < 2 ^ 50 -> 0 <= d ->
 Proof. intros H. apply budget_slack. apply rt_ok_holds. exact H. Qed.
 
 Lemma budget_code_model_any k idx d i : node_reserved i < 2 ^ 50 ->
+  node_reserved (perturb k idx d i) < 2 ^ 50 ->
   Forall (fun p => 0 <= p_use p) (b_pods i) ->
   budget_code k idx d i [budget i; budget (perturb k idx d i)] = 0.
-Proof. intros H. apply budget_code_model. apply rt_ok_holds. exact H. Qed.
+Proof. intros H H'. apply budget_code_model; apply rt_ok_holds; assumption. Qed.
 
 (* ---------------------------------------------------------------- witnesses *)
 
@@ -345,6 +356,6 @@ Proof. exists 4000, 0, 4. vm_compute. repeat split; discriminate || reflexivity.
 
 (* the exact formula without the hypothesis on the float64 round trip: a reservation of
    1001 milli-CPU counts as 1000 *)
-Definition w_rt : binput := mkB 8000 6999 0 100 None 0 [] [].
+Definition w_rt : binput := mkB 8000 (Some 6999) anno_none 100 None 0 [] [].
 Lemma budget_exact_refuted : exists i, budget i = budget_spec i + 1.
 Proof. exists w_rt. vm_compute. reflexivity. Qed.
